@@ -28,17 +28,18 @@ META = {
     "level": "model_checking",
     "technique": "explicit-state BFS over authentication request histories with prefix replay on two live "
                  "Transports (event mode), compared with a reference model of RFC 4252 server auth",
-    "text": "All histories (quick: length <=2; thorough: until the canonical state space closes, fail counter "
-            "0..10) over an alphabet of ~150 (quick) / ~200 (thorough) client packets: none, password "
-            "(incl. change request), keyboard-interactive request/response, publickey for ed25519 / "
-            "ecdsa-256(/384/521) / rsa x {ssh-rsa, rsa-sha2-256, rsa-sha2-512} x {probe, valid signature, "
-            "signature for another session, signed username / service / method / algorithm / key blob "
-            "altered, signature bit flipped, signed by another key}, gssapi-with-mic request / token / MIC "
-            "and gssapi-keyex (stub GSS context, MIC valid / invalid / no context), unknown method, service "
-            "request, pipelined bursts; the server application's answer for each packet ranges over "
-            "SUCCESSFUL / PARTIALLY_SUCCESSFUL / FAILED (/ InteractiveQuery). Three configurations: shipped "
-            "dispatch, gssapi-with-mic handlers bound by the harness (reaches the anchored "
-            "_parse_userauth_gssapi_mic, which the shipped dispatch cannot), GSSAPI disabled.",
+    "text": "All histories (quick: length <=2 in the main configuration, <=4 in the GSS-bound one; thorough: "
+            "until the canonical state space closes, fail counter 0..10) over an alphabet of 162 (quick) / 206 "
+            "(thorough) client packets: none, password (incl. change request), keyboard-interactive request / "
+            "response, publickey for ed25519 / ecdsa-256(/384/521) / rsa x {ssh-rsa, rsa-sha2-256, rsa-sha2-512} "
+            "x {probe, valid signature, signature for another session id, signed username / service / method / "
+            "algorithm / key blob altered, signature bit flipped, signed by another key, genuine request "
+            "recorded in another live session and replayed verbatim}, gssapi-with-mic request / token / MIC and "
+            "gssapi-keyex (stub GSS context; MIC valid / invalid / no context), unknown method, service request, "
+            "pipelined bursts; the server application's answer for each packet ranges over SUCCESSFUL / "
+            "PARTIALLY_SUCCESSFUL / FAILED (/ InteractiveQuery). Three configurations: shipped dispatch; "
+            "gssapi-with-mic handlers bound by the harness (reaches the anchored _parse_userauth_gssapi_mic, "
+            "which the shipped dispatch cannot: it dies in a TypeError); GSSAPI disabled.",
     "note": "server side is unmodified paramiko; client packets are harness-composed; GSS library replaced by a "
             "stub context (keyed hash over the RFC 4462 MIC fields); one username; username switching and the "
             "failure cap are C16's",
